@@ -424,4 +424,587 @@ theorem step_released {s s' : St} {e : Ev} (h : step s e = some s') :
       | (left; rfl)
       | (by_cases hw : s.waits = true <;> by_cases h1 : s.count = 1 <;> simp_all [deliver]; done))
 
+/-! ## the wake-up invariant (whole drops, whole polls) -/
+
+@[simp] theorem decRef_actors (s : St) : (decRef s).actors = s.actors := by unfold decRef; split <;> rfl
+@[simp] theorem decRef_slot (s : St) : (decRef s).slot = s.slot := by unfold decRef; split <;> rfl
+@[simp] theorem decRef_woken (s : St) : (decRef s).woken = s.woken := by unfold decRef; split <;> rfl
+@[simp] theorem decRef_winner (s : St) : (decRef s).winner = s.winner := by unfold decRef; split <;> rfl
+@[simp] theorem decRef_waits (s : St) : (decRef s).waits = s.waits := by unfold decRef; split <;> rfl
+@[simp] theorem decRef_rawDecs (s : St) : (decRef s).rawDecs = s.rawDecs := by unfold decRef; split <;> rfl
+theorem decRef_count (s : St) : (decRef s).count = s.count - 1 := by unfold decRef; split <;> simp_all
+
+@[simp] theorem deliver_actors (s : St) : (deliver s).actors = s.actors := rfl
+@[simp] theorem deliver_slot (s : St) : (deliver s).slot = s.slot := rfl
+@[simp] theorem deliver_woken (s : St) : (deliver s).woken = s.woken := rfl
+@[simp] theorem deliver_winner (s : St) : (deliver s).winner = s.winner := rfl
+@[simp] theorem deliver_waits (s : St) : (deliver s).waits = s.waits := rfl
+@[simp] theorem deliver_rawDecs (s : St) : (deliver s).rawDecs = s.rawDecs := rfl
+@[simp] theorem deliver_count (s : St) : (deliver s).count = 0 := rfl
+
+/-- wake-up invariant of the executions in which `Drop for SharedFd` and polls are single steps -/
+structure UInv (s : St) : Prop where
+  w1 : ∀ c, s.slot = some c → s.winner = some c
+  w2 : ∀ c, s.parked c → s.winner = some c ∧ (s.slot = some c ∨ c ∈ s.woken)
+  w3 : ∀ c, s.winner = some c → s.waits = true
+  j : ∀ c, s.parked c → 2 ≤ s.count ∨ c ∈ s.woken ∨ 0 < s.rawDecs
+
+theorem uinv_init (b : Bool) : UInv (init b) := by
+  constructor
+  · intro c h; simp [init] at h
+  · intro c h
+    unfold St.parked at h
+    simp [init] at h
+    cases c <;> simp at h
+  · intro c h; simp [init] at h
+  · intro c h
+    unfold St.parked at h
+    simp [init] at h
+    cases c <;> simp at h
+
+theorem parked_set {l : List Role} {i c : Nat} {r : Role}
+    (h : (l.set i r)[c]? = some (.closer .parked)) (hr : r ≠ .closer .parked) :
+    l[c]? = some (.closer .parked) := by
+  rcases getElem?_set_cases l i c r _ h with ⟨_, h1⟩ | ⟨_, h1⟩
+  · exact h1
+  · exact absurd h1.symm hr
+
+theorem parked_append {l : List Role} {c : Nat} {r : Role}
+    (h : (l ++ [r])[c]? = some (.closer .parked)) (hr : r ≠ .closer .parked) :
+    l[c]? = some (.closer .parked) := by
+  rcases getElem?_append_cases l r _ c h with h1 | ⟨_, h1⟩
+  · exact h1
+  · exact absurd h1.symm hr
+
+/-- a step that creates no parked closer and leaves slot / winner / waits alone -/
+theorem uinv_frame {s s' : St} (hu : UInv s)
+    (hp : ∀ c, s'.parked c → s.parked c)
+    (hslot : s'.slot = s.slot) (hwoken : ∀ c, c ∈ s.woken → c ∈ s'.woken)
+    (hwin : s'.winner = s.winner) (hwaits : s'.waits = s.waits)
+    (hj : ∀ c, s.parked c → (2 ≤ s.count ∨ c ∈ s.woken ∨ 0 < s.rawDecs) →
+      (2 ≤ s'.count ∨ c ∈ s'.woken ∨ 0 < s'.rawDecs)) : UInv s' := by
+  constructor
+  · intro c h; rw [hwin]; exact hu.w1 c (by rw [← hslot]; exact h)
+  · intro c h
+    have := hu.w2 c (hp c h)
+    rw [hwin, hslot]
+    exact ⟨this.1, this.2.imp id (hwoken c)⟩
+  · intro c h; rw [hwaits]; exact hu.w3 c (by rw [← hwin]; exact h)
+  · intro c h; exact hj c (hp c h) (hu.j c (hp c h))
+
+theorem mem_filter_ne {l : List Nat} {c c0 : Nat} (h : c ∈ l) (hne : c ≠ c0) : c ∈ l.filter (· != c0) := by
+  simp [List.mem_filter, h, hne]
+
+theorem uinv_drop {s : St} (hu : UInv s) (x : Nat) :
+    UInv (decRef (setRole (dropTest s) x .gone)) := by
+  have hp : ∀ c, (decRef (setRole (dropTest s) x .gone)).parked c → s.parked c := by
+    intro c h
+    unfold St.parked at h ⊢
+    simp at h
+    exact parked_set h (by simp)
+  by_cases hw : s.count = 2 ∧ s.waits = true
+  · -- the wake test fires
+    cases hs : s.slot with
+    | none =>
+      have hd : dropTest s = s := by unfold dropTest wake; simp [hw, hs]
+      rw [hd] at hp ⊢
+      apply uinv_frame hu hp (by simp) (by intro c h; simpa using h) (by simp) (by simp)
+      intro c hc hj
+      have h2 := (hu.w2 c hc).2
+      rw [hs] at h2
+      simp at h2
+      right; left; simpa using h2
+    | some c0 =>
+      have hd : dropTest s = { s with slot := none, woken := c0 :: s.woken, wakes := s.wakes + 1 } := by
+        unfold dropTest wake; simp [hw, hs]
+      have hwin0 := hu.w1 c0 hs
+      rw [hd] at hp ⊢
+      constructor
+      · intro c h; simp at h
+      · intro c h
+        have h2 := hu.w2 c (hp c h)
+        refine ⟨by simpa using h2.1, ?_⟩
+        right
+        simp
+        rcases h2.2 with h3 | h3
+        · rw [hs] at h3; simp at h3; left; exact h3.symm
+        · right; exact h3
+      · intro c h; simp at h; simpa using hu.w3 c h
+      · intro c h
+        have h2 := hu.w2 c (hp c h)
+        right; left
+        simp
+        have : c0 = c := by
+          have := h2.1
+          rw [hwin0] at this
+          simpa using this
+        left; exact this.symm
+  · have hd : dropTest s = s := by unfold dropTest; simp [hw]
+    rw [hd] at hp ⊢
+    apply uinv_frame hu hp (by simp) (by intro c h; simpa using h) (by simp) (by simp)
+    intro c hc hj
+    simp [decRef_count]
+    rcases hj with h1 | h1 | h1
+    · by_cases h3 : 3 ≤ s.count
+      · left; omega
+      · have h2 : s.count = 2 := by omega
+        have hwt := hu.w3 c (hu.w2 c hc).1
+        exact absurd ⟨h2, hwt⟩ hw
+    · right; left; exact h1
+    · right; right; exact h1
+
+theorem uinv_pollBody_first {s : St} (hi : Inv s) (hu : UInv s) (c0 : Nat) (old : Role)
+    (hx : s.actors[c0]? = some old) (hold : old.holds = true) (hw : s.waits = false) :
+    UInv (pollBody { s with waits := true, winner := some c0 } c0) := by
+  have hnone : s.winner = none := by
+    cases hwin : s.winner with
+    | none => rfl
+    | some c => have := hu.w3 c hwin; simp [hw] at this
+  have hnopark : ∀ c, ¬ s.parked c := by
+    intro c hc
+    have := (hu.w2 c hc).1
+    simp [hnone] at this
+  have hcnt : 1 ≤ s.count := by
+    have := refs_pos _ c0 old hx hold
+    have := hi.cnt
+    omega
+  unfold pollBody
+  split
+  · constructor
+    · intro c h
+      simp at h
+      have := hu.w1 c h
+      simp [hnone] at this
+    · intro c h
+      unfold St.parked at h
+      simp at h
+      exact absurd (parked_set h (by simp)) (hnopark c)
+    · intro c h; simp
+    · intro c h
+      unfold St.parked at h
+      simp at h
+      exact absurd (parked_set h (by simp)) (hnopark c)
+  · next h1 =>
+    simp at h1
+    have hpk : ∀ c, (setRole { s with waits := true, winner := some c0, slot := some c0 } c0 (.closer .parked)).parked c → c = c0 := by
+      intro c h
+      unfold St.parked at h
+      simp at h
+      rcases getElem?_set_cases _ c0 c _ _ h with ⟨_, h2⟩ | ⟨h2, _⟩
+      · exact absurd h2 (hnopark c)
+      · exact h2.symm
+    constructor
+    · intro c h; simp at h; simp [h]
+    · intro c h
+      have := hpk c h
+      subst this
+      simp
+    · intro c h; simp
+    · intro c h
+      have := hpk c h
+      subst this
+      left; simp; omega
+
+theorem uinv_pollBody_again {s : St} (hi : Inv s) (hu : UInv s) (c0 : Nat) (hx : s.parked c0) :
+    UInv (pollBody (clearWoken s c0) c0) := by
+  have hwin := (hu.w2 c0 hx).1
+  have hcnt : 1 ≤ s.count := by
+    have := refs_pos _ c0 _ hx rfl
+    have := hi.cnt
+    omega
+  have huniq : ∀ c, s.parked c → c = c0 := by
+    intro c hc
+    have := (hu.w2 c hc).1
+    rw [hwin] at this
+    simpa using this.symm
+  unfold pollBody
+  split
+  · constructor
+    · intro c h; simp [clearWoken] at h; simpa [clearWoken] using hu.w1 c h
+    · intro c h
+      unfold St.parked at h
+      simp [clearWoken] at h
+      rcases getElem?_set_cases _ c0 c _ _ h with ⟨hne, h2⟩ | ⟨_, h2⟩
+      · exact absurd (huniq c h2) (fun h => hne h.symm)
+      · simp at h2
+    · intro c h; simp [clearWoken] at h ⊢; exact hu.w3 c h
+    · intro c h
+      unfold St.parked at h
+      simp [clearWoken] at h
+      rcases getElem?_set_cases _ c0 c _ _ h with ⟨hne, h2⟩ | ⟨_, h2⟩
+      · exact absurd (huniq c h2) (fun h => hne h.symm)
+      · simp at h2
+  · next h1 =>
+    simp [clearWoken] at h1
+    have hpk : ∀ c, (setRole { clearWoken s c0 with slot := some c0 } c0 (.closer .parked)).parked c → c = c0 := by
+      intro c h
+      unfold St.parked at h
+      simp [clearWoken] at h
+      rcases getElem?_set_cases _ c0 c _ _ h with ⟨_, h2⟩ | ⟨h2, _⟩
+      · exact huniq c h2
+      · exact h2.symm
+    constructor
+    · intro c h; simp [clearWoken] at h; simp [clearWoken, ← h, hwin]
+    · intro c h
+      have := hpk c h
+      subst this
+      simp [clearWoken, hwin]
+    · intro c h; simp [clearWoken] at h ⊢; exact hu.w3 c h
+    · intro c h
+      have := hpk c h
+      subst this
+      left; simp [clearWoken]; omega
+
+theorem uinv_step {s s' : St} {e : Ev} (hi : Inv s) (hu : UInv s) (he : e.unsync = true)
+    (h : step s e = some s') : UInv s' := by
+  cases e with
+  | dropCheck x | dropDec x | pSwap x | pNone x | pTry1 x | pReg x | pTry2 x | pBegin x => simp [Ev.unsync] at he
+  | clone x =>
+    simp only [step, stepClone] at h
+    split at h
+    · cases h
+      apply uinv_frame hu _ (by simp) (by intro c h; simpa using h) (by simp) (by simp)
+      · intro c hc hj
+        simp
+        rcases hj with h | h | h
+        · left; omega
+        · right; left; exact h
+        · right; right; exact h
+      · intro c hc; exact parked_append hc (by simp)
+    · cases h
+  | opStart x =>
+    simp only [step, stepOpStart] at h
+    split at h
+    · cases h
+      apply uinv_frame hu _ (by simp) (by intro c h; simpa using h) (by simp) (by simp)
+      · intro c hc hj
+        simp
+        rcases hj with h | h | h
+        · left; omega
+        · right; left; exact h
+        · right; right; exact h
+      · intro c hc; exact parked_append hc (by simp)
+    · cases h
+  | drop x =>
+    simp only [step, stepDrop] at h
+    split at h
+    · next hx => cases h; exact uinv_drop hu x
+    · next hx => cases h; exact uinv_drop hu x
+    · cases h
+  | tryUnwrap x =>
+    simp only [step, stepTryUnwrap] at h
+    split at h
+    · split at h
+      · next h1 =>
+        cases h
+        apply uinv_frame hu _ (by simp) (by intro c h; simpa using h) (by simp) (by simp)
+        · intro c hc hj
+          simp
+          rcases hj with h | h | h
+          · omega
+          · left; exact h
+          · right; exact h
+        · intro c hc
+          unfold St.parked at hc ⊢
+          simp at hc
+          exact parked_set hc (by simp)
+      · cases h; exact hu
+    · cases h
+  | take x =>
+    simp only [step, stepTake] at h
+    split at h
+    · cases h
+      apply uinv_frame hu _ (by simp) (by intro c h; simpa using h) (by simp) (by simp)
+      · intro c hc hj; simpa using hj
+      · intro c hc
+        unfold St.parked at hc ⊢
+        simp at hc
+        exact parked_set hc (by simp)
+    · cases h
+  | close x =>
+    simp only [step, stepClose] at h
+    split at h
+    · cases h
+      apply uinv_frame hu _ (by simp) (by intro c h; simpa using h) (by simp) (by simp)
+      · intro c hc hj; simpa using hj
+      · intro c hc
+        unfold St.parked at hc ⊢
+        simp at hc
+        exact parked_set hc (by simp)
+    · cases h
+  | poll c0 =>
+    simp only [step, stepPoll] at h
+    split at h
+    · next hx =>
+      cases h
+      unfold firstPoll
+      split
+      · unfold loseNone
+        apply uinv_frame hu _ (by simp) (by intro c h; simpa using h) (by simp) (by simp)
+        · intro c hc hj; right; right; simp
+        · intro c hc
+          unfold St.parked at hc ⊢
+          simp at hc
+          exact parked_set hc (by simp)
+      · next hw => exact uinv_pollBody_first hi hu c0 _ hx rfl (by simpa using hw)
+    · next hx =>
+      cases h
+      unfold firstPoll
+      split
+      · unfold loseNone
+        apply uinv_frame hu _ (by simp) (by intro c h; simpa using h) (by simp) (by simp)
+        · intro c hc hj; right; right; simp
+        · intro c hc
+          unfold St.parked at hc ⊢
+          simp at hc
+          exact parked_set hc (by simp)
+      · next hw => exact uinv_pollBody_first hi hu c0 _ hx rfl (by simpa using hw)
+    · next hx => cases h; exact uinv_pollBody_again hi hu c0 hx
+    · cases h
+  | dropFut c0 =>
+    simp only [step, stepDropFut] at h
+    split at h
+    · cases h
+      apply uinv_frame hu _ (by simp) (by intro c h; simpa using h) (by simp) (by simp)
+      · intro c hc hj; right; right; simp
+      · intro c hc
+        unfold St.parked at hc ⊢
+        simp at hc
+        exact parked_set hc (by simp)
+    · cases h
+      apply uinv_frame hu _ (by simp) (by intro c h; simpa using h) (by simp) (by simp)
+      · intro c hc hj; right; right; simp
+      · intro c hc
+        unfold St.parked at hc ⊢
+        simp at hc
+        exact parked_set hc (by simp)
+    · cases h
+      apply uinv_frame hu _ (by simp) (by intro c h; simpa using h) (by simp) (by simp)
+      · intro c hc hj; simpa using hj
+      · intro c hc
+        unfold St.parked at hc ⊢
+        simp at hc
+        exact parked_set hc (by simp)
+    · cases h
+
+
+theorem uinv_run {s s' : St} {evs : List Ev} (hi : Inv s) (hu : UInv s) (he : ∀ e ∈ evs, e.unsync = true)
+    (h : run s evs = some s') : Inv s' ∧ UInv s' := by
+  induction evs generalizing s with
+  | nil => simp [run] at h; subst h; exact ⟨hi, hu⟩
+  | cons e es ih =>
+    simp only [run] at h
+    split at h
+    · next s1 h1 =>
+      exact ih (inv_step hi h1) (uinv_step hi hu (he e (by simp)) h1) (fun e' he' => he e' (by simp [he'])) h
+    · cases h
+
 end Compio.SharedFd
+
+/-! ## descriptors produced by operations -/
+
+namespace Compio.Produced
+
+def St.all (s : St) : List Nat := s.taken ++ s.closed ++ s.held
+
+def St.P (s : St) : Prop := s.all.Perm (List.range s.next)
+
+theorem P_congr {s s' : St} (h : s.P) (h1 : s'.taken = s.taken) (h2 : s'.closed = s.closed)
+    (h3 : s'.held = s.held) (h4 : s'.next = s.next) : s'.P := by
+  unfold St.P St.all at *
+  rw [h1, h2, h3, h4]; exact h
+
+theorem P_takeAll {s : St} (h : s.P) : (takeAll s).P := by
+  unfold St.P at *
+  refine List.Perm.trans ?_ h
+  rw [List.perm_iff_count]
+  intro a
+  simp [takeAll, St.all, List.count_append]
+  omega
+
+theorem P_dropOp {s : St} (h : s.P) : (dropOp s).P := by
+  unfold St.P at *
+  refine List.Perm.trans ?_ h
+  rw [List.perm_iff_count]
+  intro a
+  simp [dropOp, St.all, List.count_append]
+
+theorem P_adopt {s : St} (h : s.P) : (adopt s).P := by
+  unfold St.P at *
+  have : (adopt s).all = s.all ++ [s.next] := by simp [adopt, St.all]
+  rw [this]
+  simp only [adopt, List.range_succ]
+  exact List.Perm.append_right _ h
+
+structure PInv (s : St) : Prop where
+  perm : s.P
+  a : s.result.isSome → s.inDriver = false
+  b : s.fut = .idle → s.inDriver = false ∧ s.held = [] ∧ s.result = none
+  c : s.fut = .submitted → s.result = none → s.inDriver = true
+  d : s.fut = .ready → s.held = [] ∧ s.inDriver = false
+  e : s.fut = .dropped → s.inDriver = false → s.held = []
+
+theorem pinv_init : PInv init := by
+  constructor <;> simp [init, St.all, St.P]
+
+theorem pinv_step {s s' : St} {e : Ev} (hi : PInv s) (hk : e ≠ .completeFallback)
+    (h : step s e = some s') : PInv s' := by
+  cases e with
+  | completeFallback => exact absurd rfl hk
+  | poll =>
+    simp only [step] at h
+    split at h
+    · next hf =>
+      cases h
+      have hb := hi.b hf
+      constructor
+      · exact P_congr hi.perm rfl rfl rfl rfl
+      · simp [hb.2.2]
+      · simp
+      · simp
+      · simp
+      · simp
+    · next hf =>
+      split at h
+      · next r hr =>
+        cases h
+        have ha := hi.a (by simp [hr])
+        constructor
+        · exact P_takeAll (P_congr hi.perm rfl rfl rfl rfl)
+        · simp [takeAll, ha]
+        · simp [takeAll]
+        · simp [takeAll]
+        · simp [takeAll, ha]
+        · simp [takeAll]
+      · cases h; exact hi
+    · cases h
+  | pollImm ok =>
+    simp only [step] at h
+    split at h
+    · next hf =>
+      cases h
+      have hb := hi.b hf
+      constructor
+      · apply P_takeAll
+        cases ok
+        · exact P_congr hi.perm rfl rfl rfl rfl
+        · exact P_congr (P_adopt hi.perm) rfl rfl rfl rfl
+      · cases ok <;> simp [takeAll, adopt, hb.1]
+      · simp [takeAll]
+      · simp [takeAll]
+      · cases ok <;> simp [takeAll, adopt, hb.1]
+      · simp [takeAll]
+    · cases h
+  | complete ok =>
+    simp only [step] at h
+    split at h
+    · next hg =>
+      cases h
+      have hnid : s.fut ≠ .idle := fun hf => by have := (hi.b hf).1; simp [hg.1] at this
+      have hnrd : s.fut ≠ .ready := fun hf => by have := (hi.d hf).2; simp [hg.1] at this
+      split
+      · next hdrop =>
+        constructor
+        · apply P_dropOp
+          cases ok
+          · exact P_congr hi.perm rfl rfl rfl rfl
+          · exact P_congr (P_adopt hi.perm) rfl rfl rfl rfl
+        · cases ok <;> simp [dropOp, adopt]
+        · cases ok <;> simp [dropOp, adopt, hdrop]
+        · cases ok <;> simp [dropOp, adopt, hdrop]
+        · cases ok <;> simp [dropOp, adopt, hdrop]
+        · cases ok <;> simp [dropOp, adopt]
+      · next hdrop =>
+        constructor
+        · cases ok
+          · exact P_congr hi.perm rfl rfl rfl rfl
+          · exact P_congr (P_adopt hi.perm) rfl rfl rfl rfl
+        · cases ok <;> simp [adopt]
+        · cases ok <;> simp [adopt, hnid]
+        · cases ok <;> simp [adopt]
+        · cases ok <;> simp [adopt, hnrd]
+        · cases ok <;> simp [adopt, hdrop]
+    · cases h
+  | shot =>
+    simp only [step] at h
+    split at h
+    · next hg =>
+      cases h
+      have hnid : s.fut ≠ .idle := fun hf => by have := (hi.b hf).1; simp [hg.1] at this
+      have hnrd : s.fut ≠ .ready := fun hf => by have := (hi.d hf).2; simp [hg.1] at this
+      constructor
+      · exact P_adopt hi.perm
+      · simp [adopt, hg.2]
+      · simp [adopt, hnid]
+      · simp [adopt, hg.1]
+      · simp [adopt, hnrd]
+      · simp [adopt, hg.1]
+    · cases h
+  | popShot =>
+    simp only [step] at h
+    split at h
+    · next fd rest hf hh =>
+      cases h
+      constructor
+      · have hp := hi.perm
+        unfold St.P at hp ⊢
+        refine List.Perm.trans ?_ hp
+        rw [List.perm_iff_count]
+        intro a
+        simp [St.all, hh, List.count_append, List.count_cons]
+        omega
+      · simpa using hi.a
+      · simp [hf]
+      · simpa [hf] using hi.c hf
+      · simp [hf]
+      · simp [hf]
+    · cases h
+  | dropFut =>
+    simp only [step] at h
+    split at h
+    · next hf =>
+      cases h
+      have hb := hi.b hf
+      constructor
+      · exact P_dropOp (P_congr hi.perm rfl rfl rfl rfl)
+      · simp [dropOp, hb.1]
+      · simp [dropOp]
+      · simp [dropOp]
+      · simp [dropOp]
+      · simp [dropOp]
+    · next hf =>
+      split at h
+      · next r hr =>
+        cases h
+        have ha := hi.a (by simp [hr])
+        constructor
+        · exact P_dropOp (P_congr hi.perm rfl rfl rfl rfl)
+        · simp [dropOp, ha]
+        · simp [dropOp]
+        · simp [dropOp]
+        · simp [dropOp]
+        · simp [dropOp]
+      · next hr =>
+        cases h
+        have hc := hi.c hf hr
+        constructor
+        · exact P_congr hi.perm rfl rfl rfl rfl
+        · simp [hr]
+        · simp
+        · simp
+        · simp
+        · simp [hc]
+    · cases h
+
+theorem pinv_run {s s' : St} {evs : List Ev} (hi : PInv s) (hk : ∀ e ∈ evs, e ≠ .completeFallback)
+    (h : run s evs = some s') : PInv s' := by
+  induction evs generalizing s with
+  | nil => simp [run] at h; subst h; exact hi
+  | cons e es ih =>
+    simp only [run] at h
+    split at h
+    · next s1 h1 =>
+      exact ih (pinv_step hi (hk e (by simp)) h1) (fun e' he' => hk e' (by simp [he'])) h
+    · cases h
+
+end Compio.Produced
